@@ -335,6 +335,35 @@ pub fn c15_sample_conversion() {
 }
 
 // @prop C15
+// @tier quick
+// @unit jxl_oxide::fb::private::Sealed::copy_from_grid for u8, u16, f32 over ImageBuffer::I16 (the narrow Modular buffers)
+// @sym every i16 sample in a 16-bit grid; 8-bit and 16-bit declared depth
+// @bound complete over the sample values
+// @oblig the integer fast paths over a 16-bit grid give exactly what they give over a 32-bit grid holding the same sample, i.e. the clamped sample (u8: 0..=255, u16: 0..=65535), and the float output is sample/(2^bits-1); a sample outside the grid is 0
+#[kani::proof]
+#[kani::unwind(10)]
+pub fn c15_sample_conversion_i16_grid() {
+    let s: i16 = kani::any();
+    let g16 = ImageBuffer::I16(AlignedGrid::verif_from_vec(1, 1, vec![s]));
+    let g32 = ImageBuffer::I32(AlignedGrid::verif_from_vec(1, 1, vec![s as i32]));
+    let d8 = BitDepth::IntegerSample { bits_per_sample: 8 };
+    let d16 = BitDepth::IntegerSample { bits_per_sample: 16 };
+    let a: u8 = ov::sample_from_grid::<u8>(&g16, 0, 0, d8);
+    let want = if s < 0 { 0 } else if s > 255 { 255 } else { s as u8 };
+    assert!(a == want);
+    assert!(a == ov::sample_from_grid::<u8>(&g32, 0, 0, d8));
+    let b: u16 = ov::sample_from_grid::<u16>(&g16, 0, 0, d16);
+    assert!(b == if s < 0 { 0 } else { s as u16 });
+    assert!(b == ov::sample_from_grid::<u16>(&g32, 0, 0, d16));
+    let f: f32 = ov::sample_from_grid::<f32>(&g16, 0, 0, d8);
+    assert!(f == s as f32 / 255.0);
+    let zero: u8 = ov::sample_from_grid::<u8>(&g16, 0, 1, d8);
+    assert!(zero == 0);
+    kani::cover!(s > 255 && a == 255, "8-bit overshoot saturates");
+    kani::cover!(s < 0 && b == 0, "negative sample clamps to 0");
+}
+
+// @prop C15
 // @tier thorough
 // @unit jxl_oxide::ImageStream::write_to_buffer
 // @sym orientation 7, symbolic split point 0..=12 of the two write calls
